@@ -2,6 +2,12 @@
 
 package websocket
 
+import (
+	"bytes"
+	"compress/flate"
+	"io"
+)
+
 // Reference models written from the RFC text (RFC 6455 section 5, RFC 7692
 // section 7, RFC 3629). They call nothing in the library.
 
@@ -315,6 +321,12 @@ func specCont(b, lo, hi byte) bool { return b >= lo && b <= hi }
 // stored deflate blocks (RFC 1951 3.2.4): append 00 00 ff ff and decode.
 // inModel is false when a non-stored block type is met.
 func specInflateStored(payload []byte) (out []byte, ok bool, inModel bool) {
+	if !vfSymbolic() {
+		// native replay: the library ran the real compress/flate, so the wire holds
+		// real deflate output; inflate it with the standard library (RFC 7692 7.2.2:
+		// append 00 00 ff ff; a final empty stored block ends the stream)
+		return specInflateNative(payload)
+	}
 	d := append(append([]byte(nil), payload...), 0x00, 0x00, 0xff, 0xff)
 	i := 0
 	for i < len(d) {
@@ -415,4 +427,11 @@ func specCloseDontcare(code int) bool { return vfAnd(code >= 1012, code <= 1014)
 
 func specCloseMustReject(code int) bool {
 	return vfAnd(!specCloseMustAccept(code), !specCloseDontcare(code))
+}
+
+func specInflateNative(payload []byte) (out []byte, ok bool, inModel bool) {
+	d := append(append([]byte(nil), payload...), 0x00, 0x00, 0xff, 0xff, 0x01, 0x00, 0x00, 0xff, 0xff)
+	r := flate.NewReader(bytes.NewReader(d))
+	out, err := io.ReadAll(r)
+	return out, err == nil, true
 }
